@@ -74,15 +74,11 @@ MarkShadowed(m, seg) ==
                   ELSE Go(mm, stage - 1, some)
        IN Go(m, LastStage - 1, FALSE)
 
-\* dependenciesCompleted(u)
+\* dependenciesCompleted(u)  (candidate repair: every lower stage complete up to the segment start)
 DepsCompleted(m, seg, stage) ==
-  \/ seg <= First(stage)
   \/ stage = 0
-  \/ LET psp == Get(m, seg - 1, stage - 1) IN
-     \A i \in 0..(stage - 1) :
-        LET s == Get(m, seg, i) IN
-        \/ s \in {"C", "N"}
-        \/ (s \in {"Z", "P"} /\ psp \in {"C", "N"})
+  \/ /\ \A i \in 0..(stage - 1) : Get(m, seg - 1, i) \in {"C", "N"}
+     /\ (seg <= First(stage) \/ \A i \in 0..(stage - 1) : Get(m, seg, i) \in {"C", "N", "Z", "P"})
 
 \* NextJob(): result [m, unit (<<seg, stage>> or <<>>), bad]
 NextJob(m0) ==
